@@ -2,35 +2,12 @@
 //   xv run <ID> <quick|thorough>      parent: replays, workers, evidence, verdict
 //   xv worker <ID> <tier> <k> <n> <shard>   one worker process
 //   xv replay <ID> <file>             strict replay of one saved case
-mod common;
-mod ext;
-mod prog;
-mod props;
-mod val;
-mod xs;
-
-use common::*;
+use xv_lib::common::*;
+use xv_lib::{props, xs, PropDef};
 use std::collections::{BTreeMap, HashSet};
 use std::io::Write;
 use std::process::{Command, Stdio};
 use std::time::{Duration, Instant};
-
-pub struct PropDef {
-    pub id: &'static str,
-    pub rule: &'static str,
-    pub assumptions: &'static [&'static str],
-    pub max_len: usize,
-    pub quick_cases: u32,
-    pub thorough_cases: u32,
-    pub case: fn(&mut Choices, &CaseCtx) -> CaseOut,
-    /// systematic enumeration (engine B): (worker k, of n, cfg, stats)
-    pub systematic: Option<fn(usize, usize, &EngineCfg, &mut Stats)>,
-    /// run the quick tier in the release profile as well
-    pub both_profiles_quick: bool,
-    pub max_shrink_iters: u32,
-    /// the systematic part enumerates a finite space completely
-    pub exhaustive_note: Option<&'static str>,
-}
 
 fn profile_name() -> &'static str {
     if cfg!(debug_assertions) {
@@ -72,6 +49,14 @@ fn main() {
         "replay" => {
             let code = replay_cmd(&args[2], &args[3]);
             std::process::exit(code);
+        }
+        "frombytes" => {
+            // xv frombytes <ID> <file>: a libFuzzer artifact (bytes) -> choices, strict run, reduction, replay file
+            let code = from_bytes_cmd(&args[2], &args[3]);
+            std::process::exit(code);
+        }
+        "maxlen" => {
+            println!("{}", find_prop(&args[2]).max_len);
         }
         "words" => {
             let xs = xs::boot_safe();
@@ -206,6 +191,90 @@ fn replay_cmd(id: &str, file: &str) -> i32 {
             }
         }
     }
+}
+
+// ---------------------------------------------------------------------------
+// libFuzzer artifacts
+// ---------------------------------------------------------------------------
+fn run_choices(p: &PropDef, v: &[u32]) -> Option<Failure> {
+    let ctx = CaseCtx { want_render: true, tier_thorough: false, release: !cfg!(debug_assertions) };
+    let mut ch = Choices::new(v, false);
+    match std::panic::catch_unwind(std::panic::AssertUnwindSafe(|| (p.case)(&mut ch, &ctx))) {
+        Ok(o) => o.fail,
+        Err(_) => Some(Failure { sig: format!("panic: {}", normalise(&take_panic().unwrap_or_default())), detail: "uncaught panic while running the case".into() }),
+    }
+}
+
+fn from_bytes_cmd(id: &str, file: &str) -> i32 {
+    let p = find_prop(id);
+    let data = match std::fs::read(file) {
+        Ok(d) => d,
+        Err(_) => return 2,
+    };
+    xs::worker_limits();
+    let mut v: Vec<u32> = bytes_to_choices(&data);
+    let f = match run_choices(p, &v) {
+        None => {
+            println!("artifact {} does not fail when replayed strictly", file);
+            return 0;
+        }
+        Some(f) => f,
+    };
+    if known_sigs(id).iter().any(|k| k == &f.sig) {
+        println!("artifact {} reproduces the known finding {}", file, f.sig);
+        return 0;
+    }
+    // delta reduction keeping the signature: drop the tail, drop single elements, zero elements
+    let same = |v: &[u32]| run_choices(p, v).map(|g| g.sig == f.sig).unwrap_or(false);
+    let mut budget = 3000;
+    loop {
+        let mut progress = false;
+        let mut cut = v.len() / 2;
+        while cut >= 1 && budget > 0 {
+            if v.len() > cut {
+                let t: Vec<u32> = v[..v.len() - cut].to_vec();
+                budget -= 1;
+                if same(&t) {
+                    v = t;
+                    progress = true;
+                    continue;
+                }
+            }
+            cut /= 2;
+        }
+        let mut i = 0;
+        while i < v.len() && budget > 0 {
+            let mut t = v.clone();
+            t.remove(i);
+            budget -= 1;
+            if same(&t) {
+                v = t;
+                progress = true;
+            } else {
+                if v[i] != 0 {
+                    let mut z = v.clone();
+                    z[i] = 0;
+                    budget -= 1;
+                    if same(&z) {
+                        v = z;
+                        progress = true;
+                    }
+                }
+                i += 1;
+            }
+        }
+        if !progress || budget <= 0 {
+            break;
+        }
+    }
+    let ctx = CaseCtx { want_render: true, tier_thorough: false, release: !cfg!(debug_assertions) };
+    let mut ch = Choices::new(&v, false);
+    let render = std::panic::catch_unwind(std::panic::AssertUnwindSafe(|| (p.case)(&mut ch, &ctx))).ok().and_then(|o| o.render).unwrap_or_default();
+    let viol = Violation { sig: f.sig.clone(), detail: format!("found by libFuzzer (artifact {})\n{}", file, f.detail), choices: v, direct: false, render };
+    let path = write_replay(id, &viol, "fuzz");
+    println!("--- violation (libFuzzer) signature: {}\n{}", viol.sig, viol.detail);
+    println!("VIOLATION property={} replay={}", id, path);
+    1
 }
 
 // ---------------------------------------------------------------------------
